@@ -453,8 +453,8 @@ func ConstSrc(b byte) func([]byte) {
 
 // Hex is a short helper.
 func Hex(b []byte) string {
-	if len(b) > 256 {
-		return hex.EncodeToString(b[:256]) + fmt.Sprintf("…(%d bytes)", len(b))
+	if len(b) > 6000 {
+		return hex.EncodeToString(b[:6000]) + fmt.Sprintf("…(%d bytes)", len(b))
 	}
 	return hex.EncodeToString(b)
 }
